@@ -1411,7 +1411,7 @@ pub struct MemProgram {
 }
 
 pub fn mem_program_strategy() -> BoxedStrategy<MemProgram> {
-    (8u16..200, 2u8..9, 0u8..6, sched::schedule_strategy())
+    (prop_oneof![5 => 8u16..200, 1 => Just(0u16)], 2u8..9, 0u8..6, sched::schedule_strategy())
         .prop_flat_map(|(limit_kb, threads, shared_keys, schedule)| {
             let op = (any::<u8>(), prop_oneof![3 => 10u16..400, 2 => 400u16..6000, 1 => 6000u16..40000], 0u8..5);
             (Just(limit_kb), Just(threads), proptest::collection::vec(proptest::collection::vec(op, 20..150), threads as usize), Just(shared_keys), Just(schedule))
@@ -1431,8 +1431,9 @@ pub struct MemOutcome {
 
 pub fn run_mem_program(p: &MemProgram) -> MemOutcome {
     feoxdb::verif::set_thread_clock(None);
-    let limit = p.limit_kb as usize * 1024;
-    let cfg = Config { persistent: false, version: 3, cache: false, ttl: false, dev: DevSize::Normal, max_memory: Some(limit), plain_io: true, legacy_plain_meta: false, visible_cpus: 0 };
+    // limit_kb == 0: a store built with no_memory_limit() (accounting must stay exact there too)
+    let limit = if p.limit_kb == 0 { usize::MAX / 2 } else { p.limit_kb as usize * 1024 };
+    let cfg = Config { persistent: false, version: 3, cache: false, ttl: false, dev: DevSize::Normal, max_memory: (p.limit_kb != 0).then_some(limit), plain_io: true, legacy_plain_meta: false, visible_cpus: 0 };
     let store = match seq::open_store(&cfg, None) {
         Ok(s) => Arc::new(s),
         Err(e) => return MemOutcome { failure: Some(("open-failed".into(), format!("{e:?}"))), samples: 0, refused: 0, admitted: 0, peak: 0, near_limit_admissions: 0 },
@@ -1977,6 +1978,186 @@ pub fn run_clock_program(p: &ClockProgram) -> ClockOut {
     match Arc::try_unwrap(store) {
         Ok(s) => env::reap(s, path),
         Err(_) => {}
+    }
+    out
+}
+
+// ------------------------------------------------------------------------------------------
+// C16S: a reader that finishes its device read after the key was overwritten
+// ------------------------------------------------------------------------------------------
+
+/// Steered scenario on a persistent store with the cache on: key K is offloaded and not cached; a
+/// reader is parked inside its device read of K while the main thread overwrites K; the reader then
+/// returns the old value (legal) and leaves a cache entry that belongs to the retired generation.
+/// After a flush of the new generation - with or without reads in between - a follow-up call that
+/// consumes cached bytes (update_ttl, persist, get, compare-and-swap, increment) and a final read,
+/// live and after a reopen, must all see the current generation.
+#[derive(Clone, Debug, Serialize, Deserialize, PartialEq, Eq)]
+pub struct StaleEntryProgram {
+    pub ttl: bool,
+    pub plain_io: bool,
+    /// value blocks of the old / new generation (0 = small)
+    pub old_blocks: u8,
+    pub new_blocks: u8,
+    /// other keys around (their reads and writes keep the cache busy)
+    pub others: u8,
+    /// 0 update_ttl, 1 persist, 2 get, 3 compare-and-swap, 4 nothing
+    pub follow: u8,
+    /// the reader is held in its device read for up to this many ms
+    pub park_ms: u8,
+    /// flush the new generation before the follow-up call
+    pub flush_first: bool,
+    /// read the key once between the flush and the follow-up call (replaces the stale entry)
+    pub read_between: bool,
+}
+
+pub fn stale_entry_strategy() -> BoxedStrategy<StaleEntryProgram> {
+    (any::<bool>(), any::<bool>(), 0u8..3, 0u8..3, 0u8..6, 0u8..5, 5u8..60, proptest::bool::weighted(0.85), proptest::bool::weighted(0.2))
+        .prop_map(|(ttl, plain_io, old_blocks, new_blocks, others, follow, park_ms, flush_first, read_between)| StaleEntryProgram { ttl, plain_io, old_blocks, new_blocks, others, follow, park_ms, flush_first, read_between })
+        .boxed()
+}
+
+#[derive(Default)]
+pub struct StaleOut {
+    pub failure: Option<(String, String)>,
+    pub reader_was_parked: bool,
+    pub reader_saw_old: bool,
+}
+
+pub fn run_stale_entry_program(p: &StaleEntryProgram) -> StaleOut {
+    let mut out = StaleOut::default();
+    feoxdb::verif::set_global_clock(None);
+    feoxdb::verif::set_thread_clock(None);
+    let cfg = Config { persistent: true, version: 3, cache: true, ttl: p.ttl, dev: DevSize::Normal, max_memory: None, plain_io: p.plain_io, legacy_plain_meta: false, visible_cpus: 2 };
+    let path = env::fresh_path("stale");
+    std::fs::File::create(&path).expect("create");
+    let store = match seq::open_store(&cfg, Some(&path)) {
+        Ok(s) => Arc::new(s),
+        Err(e) => {
+            out.failure = Some(("open-failed".into(), format!("{e:?}")));
+            return out;
+        }
+    };
+    let make = |gen: u32, blocks: u8| -> Vec<u8> {
+        let mut v = vec![0u8; if blocks == 0 { 64 } else { blocks as usize * 4096 - 300 }];
+        seq::stamp_fill(&mut v, 7, gen);
+        v
+    };
+    let key = b"stale-key".to_vec();
+    let (old, new) = (make(1, p.old_blocks), make(2, p.new_blocks));
+    let fail = |sig: &str, msg: String| Some((sig.to_string(), msg));
+    for i in 0..p.others {
+        let _ = store.insert(format!("other-{i}").as_bytes(), &make(100 + i as u32, i % 3));
+    }
+    if store.insert(&key, &old).is_err() || store.flush().is_err() {
+        out.failure = fail("setup-failed", "insert + flush of the first generation failed".into());
+        env::reap(Arc::try_unwrap(store).ok(), Some(path));
+        return out;
+    }
+    // wait until the value is offloaded (not resident) and make sure it is not cached
+    let t0 = std::time::Instant::now();
+    while store.verif_peek(&key).is_some_and(|k| k.resident) && t0.elapsed() < std::time::Duration::from_secs(3) {
+        std::thread::sleep(std::time::Duration::from_millis(5));
+    }
+    if store.verif_peek(&key).is_none_or(|k| k.resident || k.cached) {
+        // the value never left memory in this run: nothing to steer
+        env::reap(Arc::try_unwrap(store).ok(), Some(path));
+        return out;
+    }
+    // park the first arrival at the device-read window
+    let point = (crate::sched::POINTS.iter().position(|x| *x == "after_sector_load").unwrap_or(11) * 256 / crate::sched::POINTS.len() + 1) as u8;
+    let ctl = Controller::new(Schedule::Park { seed: 1, parks: vec![crate::sched::Park { point, nth: 0, events: 255, max_ms: p.park_ms.max(5) }] });
+    sched::install(Some(ctl.clone()));
+    let reader = {
+        let (store, key) = (store.clone(), key.clone());
+        std::thread::spawn(move || store.get(&key))
+    };
+    let t1 = std::time::Instant::now();
+    while ctl.parked.load(Ordering::Relaxed) == 0 && t1.elapsed() < std::time::Duration::from_millis(500) {
+        std::thread::yield_now();
+    }
+    out.reader_was_parked = ctl.parked.load(Ordering::Relaxed) > 0;
+    // overwrite while the reader is inside its read
+    let wrote = store.insert(&key, &new);
+    let got = reader.join().ok();
+    sched::install(None);
+    if wrote.is_err() {
+        out.failure = fail("writer-call-failed", format!("overwrite failed: {wrote:?}"));
+    }
+    match got {
+        Some(Ok(v)) if v == old => out.reader_saw_old = true,
+        Some(Ok(v)) if v == new => {}
+        Some(Err(feoxdb::FeoxError::StaleExtent)) => {}
+        other => {
+            if out.failure.is_none() {
+                out.failure = fail("reader-garbage", format!("the racing get returned neither generation: {:?}", other.map(|r| r.map(|v| v.len()))));
+            }
+        }
+    }
+    for i in 0..p.others {
+        let _ = store.get(format!("other-{i}").as_bytes());
+    }
+    if out.failure.is_none() && p.flush_first {
+        if let Err(e) = store.flush() {
+            out.failure = fail("flush-failed", format!("{e:?}"));
+        }
+        let t2 = std::time::Instant::now();
+        while store.verif_peek(&key).is_some_and(|k| k.resident) && t2.elapsed() < std::time::Duration::from_secs(2) {
+            std::thread::sleep(std::time::Duration::from_millis(5));
+        }
+    }
+    if out.failure.is_none() && p.read_between {
+        match store.get(&key) {
+            Ok(v) if v == new => {}
+            other => out.failure = fail("stale-read", format!("get() after the overwrite completed returned {:?} instead of the current generation", other.map(|v| (v.len(), v == old)))),
+        }
+    }
+    if out.failure.is_none() {
+        let r = match p.follow {
+            0 if p.ttl => store.update_ttl(&key, 3600).map(|_| ()),
+            1 if p.ttl => store.persist(&key).map(|_| ()),
+            2 => store.get(&key).map(|_| ()),
+            3 => store.compare_and_swap(&key, &new, &new).map(|_| ()),
+            _ => Ok(()),
+        };
+        if let Err(e) = r {
+            out.failure = fail("follow-up-failed", format!("the follow-up call on the key failed: {e:?}"));
+        }
+    }
+    let what = ["update_ttl", "persist", "get", "compare_and_swap", "no call"][(p.follow as usize).min(4)];
+    if out.failure.is_none() {
+        match store.get(&key) {
+            Ok(v) if v == new => {}
+            Ok(v) => out.failure = fail("stale-generation-after-follow-up", format!("after the overwrite completed and {what} ran, get() returns {} (parked reader {}, cache on)", if v == old { "the OVERWRITTEN generation".to_string() } else { format!("{} foreign bytes", v.len()) }, if out.reader_saw_old { "had returned the old value" } else { "did not see the old value" })),
+            Err(e) => out.failure = fail("stale-generation-after-follow-up", format!("after {what}, get() fails with {e:?}")),
+        }
+    }
+    // ... and it is the current generation that reaches the device
+    if out.failure.is_none() {
+        let _ = store.flush();
+        match Arc::try_unwrap(store) {
+            Ok(s) => {
+                drop(s);
+                let mut c2 = cfg.clone();
+                c2.cache = false;
+                match seq::open_store(&c2, Some(&path)) {
+                    Ok(s2) => {
+                        match s2.get(&key) {
+                            Ok(v) if v == new => {}
+                            other => out.failure = fail("stale-generation-after-restart", format!("after {what}, flush and restart the key reads {:?} instead of the current generation", other.map(|v| (v.len(), v == old)))),
+                        }
+                        env::reap(Some(s2), Some(path));
+                    }
+                    Err(e) => {
+                        out.failure = fail("reopen-failed", format!("{e:?}"));
+                        let _ = std::fs::remove_file(&path);
+                    }
+                }
+            }
+            Err(s) => env::reap(Some(s), Some(path)),
+        }
+    } else {
+        env::reap(Arc::try_unwrap(store).ok(), Some(path));
     }
     out
 }
